@@ -446,10 +446,14 @@ impl Searcher {
         Some(MVV_LVA_SCORES[victim.index()][attacker.index()])
     }
 
-    /// Updates position repetition (for repetition detection)
-    #[allow(dead_code)]
-    fn push_position(&mut self, board: &Board) {
+    /// Records a position of the game so far (for repetition detection)
+    pub fn push_position(&mut self, board: &Board) {
         self.repetition.push(self.zobrist.hash(board));
+    }
+
+    /// Forgets the recorded game positions (a new position command starts a new history)
+    pub fn clear_positions(&mut self) {
+        self.repetition.clear();
     }
 }
 
